@@ -136,6 +136,38 @@ def run(ctx):
                 except Unsupported: continue
                 num('free_fermion_exact', dist(U, scipy.linalg.expm(-1j * t * H)) < 1e-8, 'SPLIT_OPERATOR circuit differs from exp(-iHt) for a Hamiltonian without two-body part (pieces commute)',
                     {'algorithm': 'SPLIT', 'n': n, 'order': order, 'n_steps': steps, 'time': t, 'one_body': repr(ham.one_body.tolist())}, key=(n, order, steps, t, repr(ham.one_body.tolist())))
+    # ---- the recursion itself, for every order (also >= 3, where convergence rates are too steep to measure): a recording
+    #      TrotterStep observes the sub-step times; they must be n_steps copies of the Suzuki leaves with split factor
+    #      1 / (4 - 4^(1/(2k-1))) at level k (the factor of C15_suzuki_split_cancels), in order
+    from openfermion.circuits.trotter.trotter_algorithm import TrotterAlgorithm, TrotterStep
+    rec_log = []
+    class _RecStep(TrotterStep):
+        def trotter_step(self, qubits, time, control_qubit=None):
+            rec_log.append(time); return []
+    class _RecAlg(TrotterAlgorithm):
+        supported_types = {of.DiagonalCoulombHamiltonian}
+        def symmetric(self, hamiltonian): return _RecStep(hamiltonian)
+        def asymmetric(self, hamiltonian): return _RecStep(hamiltonian)
+        def controlled_symmetric(self, hamiltonian): return _RecStep(hamiltonian)
+        def controlled_asymmetric(self, hamiltonian): return _RecStep(hamiltonian)
+    def leaves_spec(k, t):
+        if k <= 1: return [t]
+        sp = t / (4 - 4 ** (1 / (2 * k - 1)))
+        return leaves_spec(k - 1, sp) * 2 + leaves_spec(k - 1, t - 4 * sp) + leaves_spec(k - 1, sp) * 2
+    ham0 = of.DiagonalCoulombHamiltonian(np.eye(2), np.zeros((2, 2)))
+    for order in range(0, N(5, 6)):
+        for steps in (1, 2, 3):
+            for ctrl in (False, True):
+                t = rng.choice([1.0, 0.37, -2.5]); del rec_log[:]
+                qs2 = cirq.LineQubit.range(3)
+                try:
+                    list(cirq.flatten_op_tree(of.simulate_trotter(qs2[:2], ham0, t, n_steps=steps, order=order, algorithm=_RecAlg(), control_qubit=(qs2[2] if ctrl else None))))
+                except Exception as e:
+                    ctx.violation('C15 recursion: simulate_trotter raised %s: %s' % (type(e).__name__, e), {'order': order, 'n_steps': steps, 'controlled': ctrl}); continue
+                want = leaves_spec(order, t / steps) * steps
+                ok = len(rec_log) == len(want) and all(abs(a_ - b_) <= 1e-12 * max(1.0, abs(b_)) for a_, b_ in zip(rec_log, want))
+                num('suzuki_recursion_times', ok, 'the sub-step times differ from the Suzuki recursion with split factor 1/(4 - 4^(1/(2k-1)))',
+                    {'order': order, 'n_steps': steps, 'time': t, 'controlled': ctrl, 'observed_first': rec_log[:6], 'expected_first': want[:6]}, key=(order, steps, t, ctrl))
     # ---- controlled variants: identity for control 0, same evolution with the constant's phase for control 1
     for _ in range(N(6, 40)):
         n = rng.choice([2, 3]); name, alg, ham = rng.choice([('LSN', LINEAR_SWAP_NETWORK, dch(n)), ('SPLIT', SPLIT_OPERATOR, dch(n)), ('LOW_RANK', LOW_RANK, iop(1))])
